@@ -433,6 +433,10 @@ pub fn load(dir: &Path, tier: Tier) -> Result<Catalogue, String> {
     .iter()
     .enumerate()
     {
+        // the quick tier keeps six of them
+        if tier == Tier::Quick && ![0usize, 1, 2, 6, 11, 12].contains(&k) {
+            continue;
+        }
         let t = format!("{}{}{}", head, unit.repeat(*reps), tail);
         if push(&mut sources, format!("L{k:02}"), t) {
             n_long += 1;
